@@ -17,10 +17,18 @@ import (
 	"veriftools/instrument"
 )
 
-const (
-	RepoDir = "/repo"
-	GoBin   = "go1.26.8"
-)
+const GoBin = "go1.26.8"
+
+// RepoDir is the pion/dtls tree the checks are built from: /repo, always, for the registered
+// commands. SIMCHECK_REPO_DIR points the build at a scratch worktree instead; it exists so that
+// seeded breaking changes can be tried without touching /repo while other checks are running.
+var RepoDir = func() string {
+	if d := os.Getenv("SIMCHECK_REPO_DIR"); d != "" {
+		return d
+	}
+
+	return "/repo"
+}()
 
 // VerifDir is the /verif tree to build from (set by the driver to its working directory).
 var VerifDir = "/verif"
@@ -279,6 +287,9 @@ func Build(scratch string, race bool) (*Result, error) {
 	simMod, err := os.ReadFile(filepath.Join(simDir, "go.mod"))
 	if err != nil {
 		return nil, err
+	}
+	if RepoDir != "/repo" {
+		simMod = bytes.Replace(simMod, []byte("replace github.com/pion/dtls/v3 => /repo"), []byte("replace github.com/pion/dtls/v3 => "+RepoDir), 1)
 	}
 	simMod = append(simMod, []byte(fmt.Sprintf("\nreplace github.com/pion/transport/v4 => %s\n", transportDst))...)
 	modPath := filepath.Join(scratch, "go.mod")
